@@ -2,7 +2,8 @@
 
 Decides: when an external object id / cursor is turned into an internal OpId, the actor index
 *hint* carried by the ExId is used only on the edge where `get_actor_safe(hint) == Some(actor)`;
-otherwise the index comes from `lookup_actor(actor)`, and a failed lookup returns an error.
+otherwise the index comes from `lookup_actor(actor)`, a failed lookup returns an error, and conversely an id is
+rejected only on the arm where that lookup failed (a stale or out-of-range hint alone never rejects an id: C19).
 (Using the hint unverified would address another actor's object after the actor table shifts.)
 Not decided: that ids keep denoting the same object across merges/saves (runtime state).
 """
@@ -89,6 +90,24 @@ def check_fn(ctx, path, id_param_ty, floor):
             ok = bool(firsts) and all(kind == "stmt" and util.is_err_agg(rec["rv"]) for (_, kind, rec) in firsts)
             ctx.ob("R2-hint", "%s|failed lookup_actor returns Err|%d" % (norm_fn(path), n - 1), ok, util.where(b, sb), "None arm of lookup_actor must return an error")
     ctx.floor("matches on lookup_actor in %s" % path.split("::")[-1], n, 1)
+    # conversely: an id is rejected as unknown only after the lookup by actor id failed (a stale or out-of-range hint alone is no
+    # reason to reject: ids minted by a replica with a different actor numbering must still resolve)
+    none_edges = []
+    for sb, sw in b.switches():
+        src = b.bool_operand_source(sw["op"])
+        if src and src["kind"] == "discr":
+            d = b.single_def(src["origin"][0])
+            if d and d[1] == "t" and callee(d[2]) == LOOKUP:
+                none = [tb for v, tb in sw["targets"] if (src["vars"] or {}).get(v) == "None"]
+                none_edges.append((sb, none[0] if none else sw["otherwise"]))
+    errs = [(bi, st) for bi, blk in enumerate(b.blocks) if not blk.get("cleanup") and bi in b.live_blocks() for st in blk["st"]
+            if st["d"]["l"] == 0 and not st["d"]["p"] and util.is_err_agg(st["rv"])]
+    if id_param_ty != "ExId":
+        errs = []       # a cursor carries no hint; its other error (the clock does not cover the op) is legitimate
+    for k, (bi, st) in util.ordinal_keys(errs, lambda e: "%s|explicit Err only after lookup_actor failed" % norm_fn(path)):
+        ok = bool(none_edges) and b.edges_dominate(none_edges, bi)
+        ctx.ob("R2-hint", k, ok, st["sp"], "on the None arm of lookup_actor" if ok else
+               "the id is rejected on a path where lookup_actor(actor) has not failed (e.g. merely because the index hint is stale or out of range)")
 
 
 def run(ctx):
